@@ -20,7 +20,7 @@ TOTAL_METHODS = {"lower", "upper", "strip", "lstrip", "rstrip", "startswith", "e
                  "discard", "total_seconds", "perf_counter", "monotonic", "sort", "insert", "splitlines", "isalnum", "isalpha", "isspace", "sub", "warning", "info", "debug", "error"}
 # callee (dotted or last component) -> exception classes on hostile str input
 RAISING = {
-    "json.loads": {"JSONDecodeError", "RecursionError"},
+    "json.loads": {"JSONDecodeError", "RecursionError", "ValueError"},     # ValueError: the integer string conversion limit ("1" * 5000) is not a JSONDecodeError
     "ast.parse": {"SyntaxError", "ValueError", "RecursionError", "MemoryError"},
     "ast.literal_eval": {"SyntaxError", "ValueError", "RecursionError", "MemoryError", "TypeError"},
     "int": {"ValueError"}, "float": {"ValueError"},
